@@ -135,6 +135,7 @@ def virtual_writes(ctx):
                                    correspondence="Bits.InvertModel.invert vs write_inference._invert_expression", model_outputs=out[:1500]),
                               found_input=False)
     # --- C++ write-through vs SPEC
+    n_viol0 = len(ctx.violations)
     results = cpp_build.run_jobs(os.path.join(wd, "cpp"), jobs, parallel=16, timeout=1500)
     n_obs, n_bad = 0, 0
     for name, r in sorted(results.items()):
@@ -176,4 +177,6 @@ def virtual_writes(ctx):
                 key = "virtual-write-unchecked-argument" if (not ok and o is not None and o["cw"] == "1") else "virtual-write-through"
                 ctx.violation(key, "let %s = %s, initial buffer %s: %s" % (nm, e.text, gen_bits.hexs(init), msg),
                               dict(kind="module", module=text, field=nm, value=v, buffer=gen_bits.hexs(init), observed=o), found_input=True)
-    ctx.obligation("spec: %d write-through observations of +/- virtual fields agree with the arithmetic reference" % n_obs, n_bad == 0)
+    ctx.obligation("spec: %d write-through observations of +/- virtual fields agree with the arithmetic reference%s"
+                   % (n_obs, " (%d contradict it, all of them listed known findings)" % n_bad if n_bad and len(ctx.violations) == n_viol0 else ""),
+                   len(ctx.violations) == n_viol0)
